@@ -519,6 +519,19 @@ pub fn run(args: &Args) -> i32 {
             }
         }
     }
+    // tiny and degenerate inputs (the reader's window may be empty, hold a single code point, or hold multi-byte characters only),
+    // every entry point x formatter x target
+    {
+        let long_mb = "é".repeat(5000);
+        let tiny: Vec<String> = ["", "\n", " ", "é", "\u{feff}", "a", ":", "- ", "[", "\"", "é\n", "éé", "€", "𝄞", "\u{feff}é", "x: [", "\r", "\t", "'é", "é: é: é"].iter().map(|s| s.to_string())
+            .chain([long_mb.clone(), format!("{long_mb}: ["), format!("k: \"{long_mb}")]).collect();
+        for (ti, t) in tiny.iter().enumerate() {
+            for target in [Target::Int, Target::Strict, Target::Map, Target::Pair] {
+                let doc = Doc { text: t.clone(), target, family: "tiny" };
+                render_all(&doc, &format!("t{ti}-{}", target as usize), &[0, 1, 64], &mut rng, &mut w, &mut stats, true);
+            }
+        }
+    }
     for i in 0..n {
         let doc = gen_doc(&mut rng, i);
         if stats.samples.len() < 4 && doc.text.len() < 200 {
